@@ -1,4 +1,5 @@
 import Utv.Model.C09
+import Utv.Lemmas.C09
 /-!
 C09 — logical type combinators mean what they say.
 
@@ -503,5 +504,408 @@ theorem C09_legacy_xor_shortcut_witness :
 /-- the repaired branch rejects both witnesses' inputs in both orders -/
 example : (logicalXor [intA, dottedA] {} 0).isOk = false ∧ (logicalXor [dottedA, intA] {} 0).isOk = false
     ∧ (logicalXor [strA, slugA] {} 0).isOk = false := by decide
+
+/-! ## Part B — construction obeys the algebra users rely on -/
+
+/-- Double negation cancels: `~~t` is `t` itself (the same object) for every utype type that is not itself a
+negation … -/
+theorem C09_invert_invert (t : Ty) (u u' : Nat) (h : t.isLogical = true ∨ ∃ i, t = .dc i)
+    (hn : t.combinator ≠ some .neg) : (invert u t).bind (invert u') = some t := by
+  have hp : t.parsed = true := by
+    rcases h with h | ⟨i, rfl⟩
+    · cases t <;> first | rfl | cases h
+    · rfl
+  have hA : t.same .anyT = false := by
+    rcases h with h | ⟨i, rfl⟩
+    · cases t <;> first | rfl | cases h
+    · rfl
+  have hc : combine .neg u [t] = .comb .neg [t] u := by
+    simp [combine, combineLoop, parseArg_of_parsed hp, hA]
+  have h1 : invert u t = some (.comb .neg [t] u) := by
+    unfold invert
+    rcases h with h | ⟨i, rfl⟩
+    · rw [if_pos h, if_neg hn, hc]
+    · simp [Ty.isLogical, hc]
+  rw [h1]
+  simp [invert, Ty.isLogical, Ty.combinator, Ty.args]
+
+/-- … and for a negation `Not(a)` it gives `a`, and negating that gives `Not(a)` again (a new class of the same
+structure). -/
+theorem C09_invert_invert_neg (a : Ty) (uid u u' : Nat) (h : a.isLogical = true ∨ ∃ i, a = .dc i)
+    (hn : a.combinator ≠ some .neg) :
+    (invert u (.comb .neg [a] uid)).bind (invert u') = some (.comb .neg [a] u') := by
+  have hp : a.parsed = true := by
+    rcases h with h | ⟨i, rfl⟩
+    · cases a <;> first | rfl | cases h
+    · rfl
+  have hA : a.same .anyT = false := by
+    rcases h with h | ⟨i, rfl⟩
+    · cases a <;> first | rfl | cases h
+    · rfl
+  have hc : combine .neg u' [a] = .comb .neg [a] u' := by
+    simp [combine, combineLoop, parseArg_of_parsed hp, hA]
+  have h1 : invert u (.comb .neg [a] uid) = some a := by
+    simp [invert, Ty.isLogical, Ty.combinator, Ty.args]
+  rw [h1]
+  simp only [Option.bind_some]
+  unfold invert
+  rcases h with h | ⟨i, rfl⟩
+  · rw [if_pos h, if_neg hn, hc]
+  · simp [Ty.isLogical, hc]
+
+/-- Duplicates are absorbed: combining a type with itself gives the type. -/
+theorem C09_combine_idem (op : Comb) (hop : op ≠ .neg) (u : Nat) (t : Ty) (hp : t.parsed = true)
+    (hA : t.same .anyT = false) : combine op u [t, t] = t := by
+  simp [combine, combineLoop, parseArg_of_parsed hp, hA, same_refl, hop]
+
+/-- Duplicates are absorbed (general form, operands with a stable identity): a second occurrence of an
+operand anywhere in the operand list changes nothing.
+`KnownDefect.dupByIdentity` is the excluded region: operands that are re-created at each use. -/
+theorem C09_combine_dup_absorbed_partial (op : Comb) (u : Nat) (xs ys zs : List Ty) (t : Ty)
+    (ht : t.parsed = true)
+    (hz : ∀ a ∈ zs, a.parsed = true) :
+    combine op u (xs ++ t :: ys ++ t :: zs) = combine op u (xs ++ t :: ys ++ zs) := by
+  have key : combineLoop op u (xs ++ t :: ys ++ t :: zs) [] 0 = combineLoop op u (xs ++ t :: ys ++ zs) [] 0 := by
+    have e1 : xs ++ t :: ys ++ t :: zs = xs ++ ((t :: ys) ++ (t :: zs)) := by simp
+    have e2 : xs ++ t :: ys ++ zs = xs ++ ((t :: ys) ++ zs) := by simp
+    rw [e1, e2, combineLoop_append, combineLoop_append]
+    congr 1
+    funext acc1
+    rw [combineLoop_append, combineLoop_append]
+    cases h : combineLoop op u (t :: ys) acc1 (0 + xs.length) with
+    | none => rfl
+    | some acc2 =>
+      simp only [Option.bind_some]
+      rw [combineLoop_seen op u t ht ys acc1 acc2 _ _ h zs]
+      exact combineLoop_index op u zs acc2 _ _ hz
+  unfold combine
+  rw [key]
+
+/-- Any is absorbed: a union or exclusive-or with `Any` among its operands is `Rule` (accepts anything) … -/
+theorem C09_combine_any_absorbs (op : Comb) (hop : op = .any ∨ op = .one) (u : Nat) (args : List Ty)
+    (h : Ty.anyT ∈ args) : combine op u args = .ruleBase := by
+  have key : ∀ (args acc : List Ty) (i : Nat), Ty.anyT ∈ args → combineLoop op u args acc i = none := by
+    intro args
+    induction args with
+    | nil => intro _ _ h; cases h
+    | cons a rest ih =>
+      intro acc i h
+      simp only [combineLoop]
+      by_cases hA : (parseArg (u + 1 + i) a).same .anyT = true
+      · rw [if_pos hA]; rcases hop with rfl | rfl <;> rfl
+      · rw [if_neg hA]
+        have hr : Ty.anyT ∈ rest := by
+          rcases List.mem_cons.mp h with h1 | h1
+          · subst h1; exact absurd rfl hA
+          · exact h1
+        split <;> exact ih _ _ hr
+  unfold combine
+  rw [key args [] 0 h]
+
+/-- … and a conjunction ignores it. -/
+theorem C09_combine_all_ignores_any (u : Nat) (t : Ty) (hp : t.parsed = true) (hA : t.same .anyT = false) :
+    combine .all u [t, .anyT] = t ∧ combine .all u [.anyT, t] = t := by
+  cases t <;> simp_all [combine, combineLoop, parseArg, Ty.same, Ty.parsed]
+
+/-- The operators flatten operands of the same kind: `(a | b | …) | (c | d | …)` combines all the operands. -/
+theorem C09_combineBy_flattens (op : Comb) (u i j : Nat) (ls rs : List Ty) :
+    combineBy (.comb op ls i) op u (.comb op rs j) false = combine op u (ls ++ rs) ∧
+    combineBy (.comb op ls i) op u (.comb op rs j) true = combine op u (rs ++ ls) := by
+  simp [combineBy, Ty.combinator, Ty.args, Ty.isLogical]
+
+/-- Whatever `combine` returns from well-formed operands is well-formed: operands pairwise distinct,
+no `Any` operand, at least two operands (one for `~`), or it is `Rule` / the single remaining operand. -/
+theorem C09_combine_wf (op : Comb) (u : Nat) (args : List Ty) (hargs : ∀ a ∈ args, Good a)
+    (hneg : op = .neg → args.length = 1) : WF (combine op u args) := by
+  rcases combine_cases op u args (fun t => WF t) (fun a ha k => (hargs a ha k).1) with h | ⟨_, h, _⟩ | ⟨as, h, hinv, h1, h2, h3⟩
+  · rw [h]; exact WF.leaf _ rfl rfl
+  · exact h
+  · rw [h]
+    refine WF.comb op as u hinv.nodup hinv.parsed hinv.noAny h2 (fun hop => ?_) hinv.holds
+    have := hneg hop; omega
+
+theorem combineBy_good (self other : Ty) (op : Comb) (u : Nat) (rev : Bool) (hop : op ≠ .neg)
+    (hs : Good self) (ho : Good other) : Good (combineBy self op u other rev) := by
+  let P : Ty → Prop := fun t => WF t ∧ Flat t ∧ t.combinator ≠ some op
+  -- the operands contributed by one side
+  have side : ∀ (x : Ty) (c : Bool), Good x → (c = true → x.combinator = some op) → (c = false → x.combinator ≠ some op) →
+      ∀ a ∈ (if c then x.args else [x]), ∀ k, P (parseArg k a) := by
+    intro x c hx h1 h2 a ha k
+    cases c with
+    | true =>
+      simp only [if_true] at ha
+      have hc := h1 rfl
+      match x, hc, hx, ha with
+      | .comb c' as' u', hc, hx, ha =>
+        simp only [Ty.combinator, Option.some.injEq] at hc
+        subst hc
+        simp only [Ty.args] at ha
+        have hw := hx.wf rfl
+        have hf := hx.flat rfl
+        cases hw with
+        | leaf _ h _ => cases h
+        | comb _ _ _ _ hpar _ _ _ hch =>
+          cases hf with
+          | leaf _ h => cases h
+          | comb _ _ _ hne hfl =>
+            rw [parseArg_of_parsed (hpar a ha)]
+            exact ⟨hch a ha, hfl a ha, hne a ha⟩
+    | false =>
+      simp only [Bool.false_eq_true, if_false, List.mem_singleton] at ha
+      subst ha
+      exact ⟨(hx k).1, (hx k).2, by rw [parseArg_combinator]; exact h2 rfl⟩
+  have hl := side self (decide (self.combinator = some op)) hs (by simp) (by simp)
+  have hr := side other (other.isLogical && decide (other.combinator = some op)) ho
+    (by simp)
+    (by
+      intro h hc
+      cases other <;> simp_all [Ty.isLogical, Ty.combinator])
+  have hP : ∀ a ∈ (if rev then
+      (if (other.isLogical && decide (other.combinator = some op)) = true then other.args else [other]) ++
+        (if decide (self.combinator = some op) = true then self.args else [self])
+      else (if decide (self.combinator = some op) = true then self.args else [self]) ++
+        (if (other.isLogical && decide (other.combinator = some op)) = true then other.args else [other])),
+      ∀ k, P (parseArg k a) := by
+    intro a ha k
+    cases rev <;> simp only [Bool.false_eq_true, if_false, if_true] at ha <;>
+      rcases List.mem_append.mp ha with h | h <;> first | exact hl a h k | exact hr a h k
+  have hcb : combineBy self op u other rev = combine op u (if rev then
+      (if (other.isLogical && decide (other.combinator = some op)) = true then other.args else [other]) ++
+        (if decide (self.combinator = some op) = true then self.args else [self])
+      else (if decide (self.combinator = some op) = true then self.args else [self]) ++
+        (if (other.isLogical && decide (other.combinator = some op)) = true then other.args else [other])) := by
+    unfold combineBy
+    simp only [decide_eq_true_eq, Bool.and_eq_true]
+  rw [hcb]
+  rcases combine_cases op u _ P hP with h | ⟨_, h, hp⟩ | ⟨as, h, hinv, h1, h2, h3⟩
+  · rw [h]; exact good_raw _ rfl
+  · exact good_of_parsed hp h.1 h.2.1
+  · rw [h]
+    refine good_of_parsed rfl ?_ ?_
+    · exact WF.comb op as u hinv.nodup hinv.parsed hinv.noAny h2 (fun h => absurd h hop)
+        (fun a ha => (hinv.holds a ha).1)
+    · exact Flat.comb op as u (fun a ha => (hinv.holds a ha).2.2) (fun a ha => (hinv.holds a ha).2.1)
+
+theorem binop_good (op : Comb) (u : Nat) (l r t : Ty) (hl : Good l) (hr : Good r)
+    (h : binop op u l r = some t) : Good t := by
+  unfold binop at h
+  by_cases hop : op = .neg
+  · rw [if_pos hop] at h; cases h
+  · rw [if_neg hop] at h
+    -- `combine op u [l, r]` when neither operand is a combinator
+    have pair : l.combinator = none → r.combinator = none → Good (combine op u [l, r]) := by
+      intro hlc hrc
+      let P : Ty → Prop := fun t => WF t ∧ Flat t ∧ t.combinator ≠ some op
+      have hP : ∀ a ∈ [l, r], ∀ k, P (parseArg k a) := by
+        intro a ha k
+        simp only [List.mem_cons, List.not_mem_nil, or_false] at ha
+        rcases ha with rfl | rfl
+        · exact ⟨(hl k).1, (hl k).2, by rw [parseArg_combinator, hlc]; simp⟩
+        · exact ⟨(hr k).1, (hr k).2, by rw [parseArg_combinator, hrc]; simp⟩
+      rcases combine_cases op u [l, r] P hP with h | ⟨_, h, hp⟩ | ⟨as, h, hinv, h1, h2, h3⟩
+      · rw [h]; exact good_raw _ rfl
+      · exact good_of_parsed hp h.1 h.2.1
+      · rw [h]
+        refine good_of_parsed rfl ?_ ?_
+        · exact WF.comb op as u hinv.nodup hinv.parsed hinv.noAny h2 (fun h => absurd h hop)
+            (fun a ha => (hinv.holds a ha).1)
+        · exact Flat.comb op as u (fun a ha => (hinv.holds a ha).2.2) (fun a ha => (hinv.holds a ha).2.1)
+    by_cases hlog : l.isLogical = true
+    · rw [if_pos hlog] at h
+      cases h
+      exact combineBy_good l r op u false hop hl hr
+    · rw [if_neg hlog] at h
+      cases l with
+      | dc i =>
+        simp only at h
+        by_cases hrl : r.isLogical = true
+        · rw [if_pos hrl] at h; cases h
+          exact combineBy_good r (.dc i) op u true hop hr hl
+        · rw [if_neg hrl] at h; cases h
+          exact pair rfl (by cases r <;> first | rfl | exact absurd rfl hrl)
+      | cls _ | noneV | anyT | alias _ | lit _ =>
+        simp only at h
+        split at h
+        · cases h
+        · by_cases hrl : r.isLogical = true
+          · rw [if_pos hrl] at h; cases h
+            exact combineBy_good r _ op u true hop hr hl
+          · rw [if_neg hrl] at h
+            cases r <;> first | (cases h; exact pair rfl rfl) | cases h
+      | rule _ | ruleBase | annot _ _ | comb _ _ _ => exact absurd rfl hlog
+
+theorem invert_good (u : Nat) (t t' : Ty) (ht : Good t) (h : invert u t = some t') : Good t' := by
+  unfold invert at h
+  -- `combine '~' [t]` for a parsed operand that is not a negation
+  have neg1 : t.parsed = true → t.combinator ≠ some .neg → Good (combine .neg u [t]) := by
+    intro hp hn
+    let P : Ty → Prop := fun t => WF t ∧ Flat t ∧ t.combinator ≠ some .neg
+    have hP : ∀ a ∈ [t], ∀ k, P (parseArg k a) := by
+      intro a ha k
+      simp only [List.mem_singleton] at ha
+      subst ha
+      exact ⟨(ht k).1, (ht k).2, by rw [parseArg_combinator]; exact hn⟩
+    rcases combine_cases .neg u [t] P hP with h | ⟨h, _⟩ | ⟨as, h, hinv, h1, h2, h3⟩
+    · rw [h]; exact good_raw _ rfl
+    · exact absurd rfl h
+    · rw [h]
+      refine good_of_parsed rfl ?_ ?_
+      · refine WF.comb .neg as u hinv.nodup hinv.parsed hinv.noAny (fun h => absurd rfl h) (fun _ => ?_)
+          (fun a ha => (hinv.holds a ha).1)
+        simp at h3; omega
+      · exact Flat.comb .neg as u (fun a ha => (hinv.holds a ha).2.2) (fun a ha => (hinv.holds a ha).2.1)
+  by_cases hlog : t.isLogical = true
+  · rw [if_pos hlog] at h
+    have hp : t.parsed = true := by cases t <;> first | rfl | cases hlog
+    by_cases hn : t.combinator = some .neg
+    · rw [if_pos hn] at h
+      match t, hn, ht, h with
+      | .comb c as u0, hn, ht, h =>
+        simp only [Ty.combinator, Option.some.injEq] at hn
+        subst hn
+        simp only [Ty.args] at h
+        have hw := ht.wf rfl
+        have hf := ht.flat rfl
+        cases as with
+        | nil => cases h
+        | cons a rest =>
+          simp only [List.head?_cons, Option.some.injEq] at h
+          subst h
+          cases hw with
+          | leaf _ h _ => cases h
+          | comb _ _ _ _ hpar _ _ _ hch =>
+            cases hf with
+            | leaf _ h => cases h
+            | comb _ _ _ _ hfl =>
+              exact good_of_parsed (hpar a (by simp)) (hch a (by simp)) (hfl a (by simp))
+    · rw [if_neg hn] at h; cases h
+      exact neg1 hp hn
+  · rw [if_neg hlog] at h
+    cases t <;> first | (cases h; exact neg1 rfl (by simp [Ty.combinator])) | cases h
+
+/-- Every type built with the operators `|`, `^`, `&`, `~` from well-formed flat operands (in particular from
+plain classes, constrained types, generics, literals, data classes, Any, None) — any expression, any nesting
+depth, any operand order — is well-formed and flat: no operand twice (by identity), no `Any` operand, at
+least two operands per `|`/`^`/`&`, no combinator directly inside one of the same kind, no `~` inside `~`. -/
+theorem C09_ops_wf_flat (e : Expr) : ∀ (u : Nat) (t : Ty) (u' : Nat),
+    (∀ a, e.atoms a → Good a) → build e u = some (t, u') → Good t := by
+  induction e with
+  | atom a =>
+    intro u t u' hat h
+    simp only [build, Option.some.injEq, Prod.mk.injEq] at h
+    rw [← h.1]; exact hat a rfl
+  | bin op l r ihl ihr =>
+    intro u t u' hat h
+    simp only [build] at h
+    cases hl : build l u with
+    | none => rw [hl] at h; cases h
+    | some p1 =>
+      obtain ⟨tl, u1⟩ := p1
+      rw [hl] at h
+      simp only at h
+      cases hr : build r u1 with
+      | none => rw [hr] at h; cases h
+      | some p2 =>
+        obtain ⟨tr, u2⟩ := p2
+        rw [hr] at h
+        simp only at h
+        cases hb : binop op u2 tl tr with
+        | none => rw [hb] at h; cases h
+        | some t0 =>
+          rw [hb] at h
+          simp only [Option.some.injEq, Prod.mk.injEq] at h
+          rw [← h.1]
+          exact binop_good op u2 tl tr t0 (ihl u tl u1 (fun a ha => hat a (Or.inl ha)) hl)
+            (ihr u1 tr u2 (fun a ha => hat a (Or.inr ha)) hr) hb
+  | inv e ih =>
+    intro u t u' hat h
+    simp only [build] at h
+    cases he : build e u with
+    | none => rw [he] at h; cases h
+    | some p1 =>
+      obtain ⟨t1, u1⟩ := p1
+      rw [he] at h
+      simp only at h
+      cases hi : invert u1 t1 with
+      | none => rw [hi] at h; cases h
+      | some t0 =>
+        rw [hi] at h
+        simp only [Option.some.injEq, Prod.mk.injEq] at h
+        rw [← h.1]
+        exact invert_good u1 t1 t0 (ih u t1 u1 hat he) hi
+
+/-- the operands of the theorem exist: every leaf kind is `Good`, and an expression over them builds -/
+example : Good (.cls 1) ∧ Good (.rule 2) ∧ Good (.dc 3) ∧ Good .anyT ∧ Good .noneV ∧ Good (.alias 4) ∧ Good (.lit 5)
+    ∧ Good .ruleBase :=
+  ⟨good_raw _ rfl, good_raw _ rfl, good_raw _ rfl, good_raw _ rfl, good_raw _ rfl, good_raw _ rfl, good_raw _ rfl,
+   good_raw _ rfl⟩
+
+example : (build (.bin .any (.bin .any (.atom (.rule 1)) (.atom (.cls 2))) (.inv (.inv (.bin .any (.atom (.cls 3)) (.atom (.rule 1)))))) 1).isSome = true := by
+  decide
+
+/-! ### known defects of construction (negation witnesses of the unrestricted statements)
+
+Full statements that do NOT hold of the code:
+* "duplicates are absorbed" for operands that are re-created at each use (typing generics, literals, combined
+  expressions written twice): `C09_combine_dup_absorbed_partial` without the `parsed` hypotheses / with structural
+  instead of identity equality;
+* "nested combinators of the same kind flatten" for the classmethod constructors (`any_of(a, any_of(b, c))`):
+  `C09_ops_wf_flat` with `combine` steps in the expression. -/
+
+mutual
+/-- structural equality, ignoring class identity -/
+def Ty.structEq : Ty → Ty → Bool
+  | .cls a, .cls b => a == b
+  | .rule a, .rule b => a == b
+  | .dc a, .dc b => a == b
+  | .ruleBase, .ruleBase => true
+  | .anyT, .anyT => true
+  | .noneV, .noneV => true
+  | .alias a, .alias b => a == b
+  | .lit a, .lit b => a == b
+  | .annot a _, .annot b _ => a == b
+  | .comb c as _, .comb d bs _ => c == d && Ty.structEqL as bs
+  | _, _ => false
+def Ty.structEqL : List Ty → List Ty → Bool
+  | [], [] => true
+  | a :: as, b :: bs => Ty.structEq a b && Ty.structEqL as bs
+  | _, _ => false
+end
+
+/-- some pair of distinct operand positions holds structurally equal operands -/
+def dupPairs : List Ty → Bool
+  | [] => false
+  | a :: as => as.any (fun b => Ty.structEq a b) || dupPairs as
+
+/-- `KnownDefect.dupByIdentity t`: the top combinator of `t` has two structurally equal operands -/
+def KnownDefect.dupByIdentity (t : Ty) : Bool := dupPairs t.args
+
+/-- `KnownDefect.callKeepsNesting t`: an operand of the top combinator is a combinator of the same kind -/
+def KnownDefect.callKeepsNesting (t : Ty) : Bool :=
+  match t with
+  | .comb c as _ => as.any (fun a => a.combinator == some c)
+  | _ => false
+
+/-- `Slug ^ List[int] ^ List[int]`: the generic is annotated anew at each use, the two copies are different
+classes, and the exclusive-or keeps both (and therefore rejects every list). -/
+theorem C09_dup_by_identity_witness :
+    ∃ e t u, build e 1 = some (t, u) ∧ KnownDefect.dupByIdentity t = true ∧ t.args.length = 3 :=
+  ⟨.bin .one (.bin .one (.atom (.rule 1)) (.atom (.alias 2))) (.atom (.alias 2)), _, _, rfl, by decide, by decide⟩
+
+/-- `LogicalType.any_of(int, LogicalType.any_of(str, float))` stays nested. -/
+theorem C09_call_keeps_nesting_witness :
+    KnownDefect.callKeepsNesting (combine .any 9 [.cls 1, combine .any 5 [.cls 2, .cls 3]]) = true := by decide
+
+/-- the operators never produce the second defect (corollary of `C09_ops_wf_flat`) -/
+theorem C09_ops_no_nesting (e : Expr) (u : Nat) (t : Ty) (u' : Nat) (hat : ∀ a, e.atoms a → Good a)
+    (h : build e u = some (t, u')) (hp : t.parsed = true) : KnownDefect.callKeepsNesting t = false := by
+  have hf := (C09_ops_wf_flat e u t u' hat h).flat hp
+  cases hf with
+  | leaf _ hc => cases t <;> first | rfl | cases hc
+  | comb c as u0 hne _ =>
+    simp only [KnownDefect.callKeepsNesting]
+    apply List.any_eq_false.mpr
+    intro a ha
+    simpa using hne a ha
 
 end Utv.C09
